@@ -280,6 +280,9 @@ type JRand struct {
 	Fresh []int
 	// TagOverride, if non-empty, supplies successive outputs for instance tag reads.
 	TagOverride [][]byte
+	// ShortDH makes every DH exponent one whose public value has a leading zero byte (about one in
+	// 256 honest values): integers travel in minimal form and must still be read back as the same value
+	ShortDH bool
 }
 
 func NewJRand(owner string, seed uint64, reg *Registry) *JRand {
@@ -350,6 +353,14 @@ func (r *JRand) Read(b []byte) (int, error) {
 		r.TagOverride = r.TagOverride[1:]
 	} else {
 		r.fill(class, k, b)
+	}
+	if r.ShortDH && len(b) == 40 && (class == "commit" || class == "dhkey" || class == "ratchet") {
+		for i := 0; i < 100000; i++ {
+			if ref.Pub(b).BitLen() <= ref.P.BitLen()-8 {
+				break
+			}
+			r.fill(fmt.Sprintf("%s/short-dh-%d", class, i), k, b)
+		}
 	}
 	rr := RandRead{N: n, Len: len(b), Class: class}
 	switch {
